@@ -859,6 +859,7 @@ def run(tier, seed):
         "KNOWN-FINDING",
         "float64 vs exact rationals: relative tolerance 1e-9",
     ]
+    from harness.props import dimtype_legs   # trusted base of harness/translate/x_dimtype.py
     return rep.finish("proof", ob, trusted_base=core.TRUSTED_BASE_COMMON + [
         "Model/CubeCounts.v is hand-written; tied to cube.py by this correspondence run only; its extractors "
         "(counts of the nine class pairs through the factory dict, type strings, _slice_idx_expr, factory "
@@ -868,7 +869,8 @@ def run(tier, seed):
         "(dimension_order, raw_shape, take_valid_ord; named in Model/NumArray.v) are hand-written and tied to "
         "dimension.py / cube.py by this correspondence run only (cube.dimension_types; every public value)",
         core.TRUSTED_BASE_TRANSLATOR,
-        "Spec/Survey.v tabulate is validated against harness.gen.tabulate on every third natural-order case"])
+        "Spec/Survey.v tabulate is validated against harness.gen.tabulate on every third natural-order case",
+        dimtype_legs.trusted_base()])
 
 
 def replay(path):
